@@ -229,6 +229,15 @@ func (r *runner) account(o *obs) {
 	}
 }
 
+// bulk accounts for n oracle-only evaluations (nt of them distinct and non-trivial) that were not
+// materialised as observations (large sweeps); failures among them are added individually.
+func (r *runner) bulk(group string, n, nt int) {
+	st := r.stat(group)
+	st.Cases += n
+	st.Nontrivial += nt
+	r.evals += n
+}
+
 func trunc(s string, n int) string {
 	if len(s) > n {
 		return s[:n] + "..."
